@@ -13,7 +13,13 @@
 //     check-up: NO_DATA -> (stamp) EVALUATED(rate) -> (timeout) STALE -> (stamp) EVALUATED ...
 // Nothing of the library's arithmetic is mirrored; thresholds get an ambiguity band.
 #include <cinttypes>
+#include <iomanip>
+#include <iostream>
+#include <memory>
+#include <optional>
+#include <sstream>
 #include <string>
+#include <type_traits>
 #include <vector>
 
 #include "romea_core_common/diagnostic/CheckupRate.hpp"
@@ -39,10 +45,79 @@ const unsigned MAX_EVENTS = 500;
 enum HbKind
 {
   HB_NONE = 0, HB_CLOCK, HB_M1, HB_EXACT, HB_P1, HB_EARLY, HB_LATE, HB_PAST, HB_SAME, HB_FAR,
-  HB_PRE_FIRST
+  HB_PRE_FIRST, HB_REPEAT, HB_PREFIX
 };
 
-struct Ev {bool hb; int64_t t; int kind;};
+// quiet: the event is applied to the objects and to the model but nothing is observed after it
+// (long runs of one cheap mutator before an observation)
+struct Ev {bool hb; int64_t t; int kind; bool quiet = false;};
+
+// Variants drawn from a second random stream (so that they are independent of the history)
+struct Tie {double target, eps; int side; int64_t period;};      // side 0 lower, 1 upper threshold
+const Tie TIES[] = {
+  {10, 2, 0, 125000000}, {15, 5, 0, 100000000}, {15, 5, 1, 50000000}, {3, 1, 0, 500000000}, {3, 1, 1, 250000000},
+  {7.5, 2.5, 0, 200000000}, {7.5, 2.5, 1, 100000000}, {150, 50, 0, 10000000}, {150, 50, 1, 5000000},
+  {10, 0, 0, 100000000}, {100, 0, 1, 10000000}, {6, 1, 0, 200000000}, {25, 5, 0, 50000000},
+  {1, 0.5, 0, 2000000000}, {0.5, 0.25, 0, 4000000000LL}, {40, 10, 1, 20000000}};
+
+struct Extras
+{
+  int eps_kind = 0;          // 0 as drawn, 1 extreme magnitude, 2 the rate object itself is passed as tolerance
+  double eps_value = 0;
+  int tie = -1;              // index into TIES: the steady rate is exactly a threshold
+  int t0_kind = 0;           // 0 as drawn, 10 log-spaced magnitude, 11 int64 max side, 12 int64 min side
+  int64_t t0 = 0;
+  int prefix_kind = 0;       // 0 none, 1 steady stamps, 2 alternating stamps, 3 early heartbeats, 4 timeout heartbeats
+  bool prefix_16 = false;    // 2^16+k instead of 2^8+k repetitions
+  unsigned prefix_n = 0;
+  int64_t prefix_p = 0;
+  int arg_style = 0;         // 0 named lvalue, 1 temporary, 2 std::move, 3 heap object freed right after the call
+  bool default_ctor = false; // RateMonitoring() + initialize(rate) instead of RateMonitoring(rate)
+  int copy_kind = 0;         // 0 none, 1 copy-construct and destroy the source, 2 same through std::move, 3 fork
+  double copy_at = 0, snapshot_at = 0;   // positions in the history, as fractions
+  bool interference = false;
+};
+
+// largest first stamp: int64 max minus the longest history the generator can append
+// (500 periods of 10 s + the far-future heartbeat + the continuation fed to a forked copy)
+const int64_t T0_MAX = INT64_MAX - 8000000000000LL;
+const int64_t T0_MIN = INT64_MIN + 20000000000LL;
+
+void draw_extras(vh::Rng & q, Extras & x)
+{
+  double u = q.uni();
+  if (u < 0.08) {
+    static const double E[] = {0.0, 4.9406564584124654e-324, 1e-300, 1e-15, 1e15, 1e300, 1.7976931348623157e308};
+    x.eps_kind = 1; x.eps_value = E[q.range(0, 6)];
+  } else if (u < 0.12) {
+    x.eps_kind = 2;
+  } else if (u < 0.17) {
+    x.tie = static_cast<int>(q.range(0, sizeof(TIES) / sizeof(TIES[0]) - 1));
+  }
+  u = q.uni();
+  if (u < 0.06) {
+    x.t0_kind = 10; x.t0 = static_cast<int64_t>(q.sign() * q.logu(1.0, 9.2e18));
+    if (x.t0 > T0_MAX) {x.t0 = T0_MAX;}
+    if (x.t0 < T0_MIN) {x.t0 = T0_MIN;}
+  } else if (u < 0.09) {
+    x.t0_kind = 11; x.t0 = T0_MAX - (q.coin(0.3) ? 0 : q.range(0, 1000000000000LL));
+  } else if (u < 0.12) {
+    x.t0_kind = 12; x.t0 = T0_MIN + (q.coin(0.3) ? 0 : q.range(0, 1000000000000LL));
+  }
+  u = q.uni();
+  if (u < 0.017 && x.t0_kind == 0) {
+    x.prefix_16 = u < 0.002;
+    x.prefix_kind = static_cast<int>(q.range(1, 4));
+    x.prefix_n = (x.prefix_16 ? 65536u : 256u) + static_cast<unsigned>(q.range(0, 3));
+    x.prefix_p = static_cast<int64_t>(q.logu(1e3, 1e7));
+  }
+  x.arg_style = static_cast<int>(q.range(0, 3));
+  x.default_ctor = q.coin(0.25);
+  if (q.coin(0.3)) {x.copy_kind = static_cast<int>(q.range(1, 3));}
+  x.copy_at = q.uni();
+  x.snapshot_at = q.uni();
+  x.interference = q.coin(0.25);
+}
 
 struct Config
 {
@@ -155,7 +230,8 @@ struct PeriodGen
   }
 };
 
-void gen_case(vh::Rng & r, Config & cfg, std::vector<Ev> & ev, int & pmode, int & hbmode, int & t0kind)
+void gen_case(
+  vh::Rng & r, const Extras & x, Config & cfg, std::vector<Ev> & ev, int & pmode, int & hbmode, int & t0kind)
 {
   // ---- configuration
   int rk = static_cast<int>(r.range(0, 9));
@@ -177,6 +253,9 @@ void gen_case(vh::Rng & r, Config & cfg, std::vector<Ev> & ev, int & pmode, int 
   }
   static const char * const N[] = {"foo", "imu", "gps/fix", "lidar_front", "a b", "x"};
   cfg.name = N[r.range(0, 5)];
+  if (x.eps_kind == 1) {cfg.eps = x.eps_value;}
+  if (x.eps_kind == 2) {cfg.eps = cfg.rate;}
+  if (x.tie >= 0) {cfg.rate = TIES[x.tie].target; cfg.eps = TIES[x.tie].eps;}
   cfg.W = window_of(cfg.rate);
 
   // ---- history shape
@@ -207,6 +286,11 @@ void gen_case(vh::Rng & r, Config & cfg, std::vector<Ev> & ev, int & pmode, int 
     pg.base = std::floor(1e9 / thr) + static_cast<double>(r.range(-3, 3));
     pg.jitter = r.coin(0.6) ? 0.0 : 1.0;     // +-1 ns wobble
   }
+  if (x.tie >= 0) {
+    // steady period for which the rate is exactly the threshold (all quantities exact in binary)
+    pg.mode = 0; pmode = 5;
+    pg.base = static_cast<double>(TIES[x.tie].period);
+  }
 
   hbmode = static_cast<int>(r.range(0, 3));
   double hb_p = r.coin() ? 0.08 : (r.coin() ? 0.3 : 0.6);
@@ -224,6 +308,7 @@ void gen_case(vh::Rng & r, Config & cfg, std::vector<Ev> & ev, int & pmode, int 
     case 7: t0 = r.range(1, 1000000000000000LL); break;
     default: t0 = -r.range(1, 1000000000000LL); t0kind = 8; break;
   }
+  if (x.t0_kind != 0) {t0 = x.t0; t0kind = x.t0_kind;}
 
   ev.clear();
   // heartbeats before the first stamp
@@ -267,6 +352,7 @@ void gen_case(vh::Rng & r, Config & cfg, std::vector<Ev> & ev, int & pmode, int 
         } else if (k <= 8) {h = tl + r.range(HALF_S + 2, 20000000000LL); kind = HB_LATE;} else if (k == 9) {
           h = tl - r.range(1, 10000000000LL); kind = HB_PAST;
         } else if (k == 10) {h = tl; kind = HB_SAME;} else {h = tl + 1000000000000LL; kind = HB_FAR;}
+        if (i > 0 && r.coin(0.5)) {h = ev.back().t; kind = HB_REPEAT;}     // the same heartbeat twice
         ev.push_back({true, h, kind});
       }
     }
@@ -398,16 +484,47 @@ struct Fast
 static void one_case(vh::Ctx & c, uint64_t idx)
 {
   vh::Rng r(c.seed, idx);
+  vh::Rng q(c.seed, idx, 1);        // variants: independent of the history
+  Extras x;
+  draw_extras(q, x);
   Config cfg;
   std::vector<Ev> ev;
   int pmode, hbmode, t0kind;
-  gen_case(r, cfg, ev, pmode, hbmode, t0kind);
+  gen_case(r, x, cfg, ev, pmode, hbmode, t0kind);
   const int W = cfg.W;
+
+  // ---- long run of one cheap mutator, observed only at its end, before the ordinary history
+  if (x.prefix_kind != 0) {
+    size_t first = 0;
+    while (first < ev.size() && ev[first].hb) {++first;}
+    const int64_t t0 = ev[first].t;
+    std::vector<Ev> pre;
+    pre.reserve(x.prefix_n);
+    if (x.prefix_kind <= 2) {
+      // stamps t0 - sum of periods ... t0 - p, then the history's own first stamp t0
+      std::vector<int64_t> ts(x.prefix_n);
+      int64_t t = t0;
+      for (unsigned i = 0; i < x.prefix_n; ++i) {
+        t -= x.prefix_p + ((x.prefix_kind == 2 && (i & 1)) ? x.prefix_p / 3 + 1 : 0);
+        ts[x.prefix_n - 1 - i] = t;
+      }
+      for (unsigned i = 0; i < x.prefix_n; ++i) {pre.push_back({false, ts[i], 0, i + 1 < x.prefix_n});}
+      ev.insert(ev.begin() + first, pre.begin(), pre.end());
+    } else {
+      for (unsigned i = 0; i < x.prefix_n; ++i) {
+        int64_t h = x.prefix_kind == 3 ? t0 + (i % 7 == 0 ? 0 : static_cast<int64_t>(i)) : t0 + HALF_S + 1 + i;
+        pre.push_back({true, h, HB_PREFIX, i + 1 < x.prefix_n});
+      }
+      ev.insert(ev.begin() + first + 1, pre.begin(), pre.end());
+    }
+  }
+  // 2^16 repetitions are fed to the bare monitor only (the check-ups cost 50x more per event)
+  const bool drive_cu = !(x.prefix_kind != 0 && x.prefix_16);
 
   // ---- model-only pre-pass: categories, non-triviality, distinct hash
   unsigned nst = 0, nhb = 0;
   bool kinds_seen[16] = {false};
-  bool pre_first_late = false;
+  bool pre_first = false, pre_first_late = false;
   {
     Model m(W);
     uint64_t h = vh::hash_doubles({cfg.rate, cfg.eps, static_cast<double>(cfg.name.size())});
@@ -415,7 +532,7 @@ static void one_case(vh::Ctx & c, uint64_t idx)
       h = vh::hash_addi(h, static_cast<uint64_t>(e.t) * 2 + (e.hb ? 1 : 0));
       if (e.hb) {
         ++nhb; kinds_seen[e.kind] = true;
-        if (m.st.empty() && e.t > HALF_S) {pre_first_late = true;}
+        if (m.st.empty()) {pre_first = true; if (e.t > HALF_S) {pre_first_late = true;}}
         m.heartbeat(e.t);
       } else {++nst; m.stamp(e.t);}
     }
@@ -426,19 +543,40 @@ static void one_case(vh::Ctx & c, uint64_t idx)
     c.cat(std::string("hb_") + HB_MODES[hbmode]);
     c.cat(W == 4 ? "W_4" : (W == 64 ? "W_64" : "W_between"));
     if (2.0 * cfg.rate != std::floor(2.0 * cfg.rate)) {c.cat("two_rate_not_integer");}
-    c.cat(t0kind == 0 ? "t0_zero" : (t0kind == 5 ? "t0_epoch_ns" : (t0kind == 8 ? "t0_negative" : "t0_other")));
+    switch (t0kind) {
+      case 0: c.cat("t0_zero"); break;
+      case 5: c.cat("t0_epoch_ns"); break;
+      case 8: c.cat("t0_negative"); break;
+      case 10: c.cat("t0_logspaced_to_int64_limits"); break;
+      case 11: c.cat("t0_int64_max_side"); break;
+      case 12: c.cat("t0_int64_min_side"); break;
+      default: c.cat("t0_other"); break;
+    }
     if (nst <= static_cast<unsigned>(W)) {c.cat("window_never_full");}
     if (rollover_nonconst) {c.cat("rollover_nonconstant_periods");}
     if (m.recoveries) {c.cat("timeout_then_recovery");}
     if (m.timeouts_before_full) {c.cat("timeout_before_window_full");}
     if (m.timeouts) {c.cat("timeout");}
-    if (kinds_seen[HB_PRE_FIRST]) {c.cat("hb_before_first_stamp");}
+    if (pre_first) {c.cat("hb_before_first_stamp");}
     if (pre_first_late) {c.cat("hb_before_first_stamp_later_than_500ms");}
     if (kinds_seen[HB_EXACT]) {c.cat("hb_at_500ms_exact");}
     if (kinds_seen[HB_P1]) {c.cat("hb_at_500ms_plus_1ns");}
     if (kinds_seen[HB_M1]) {c.cat("hb_at_500ms_minus_1ns");}
     if (kinds_seen[HB_PAST]) {c.cat("hb_earlier_than_last_stamp");}
+    if (kinds_seen[HB_REPEAT]) {c.cat("hb_same_value_twice");}
     if (ev.size() == MAX_EVENTS) {c.cat("events_500");}
+    if (nst >= 257) {c.cat("stamps_ge_257");}
+    if (x.eps_kind == 1) {c.cat(cfg.eps == 0 ? "eps_zero" : (cfg.eps < 1 ? "eps_tiny" : "eps_huge"));}
+    if (x.eps_kind == 2 && x.tie < 0) {c.cat("ctor_rate_and_eps_same_object");}
+    if (x.tie >= 0) {c.cat("steady_rate_exactly_on_threshold");}
+    if (x.prefix_kind != 0) {
+      c.cat(x.prefix_16 ? "long_prefix_2p16" : "long_prefix_2p8");
+      c.cat(x.prefix_kind <= 2 ? "long_prefix_of_stamps" : "long_prefix_of_heartbeats");
+    }
+    static const char * const STYLE[] = {"args_named_lvalue", "args_temporary", "args_std_move", "args_freed_after_call"};
+    c.cat(STYLE[x.arg_style]);
+    if (x.default_ctor) {c.cat("monitor_default_ctor_then_initialize");}
+    if (x.interference) {c.cat("interference_steps");}
     c.count("stamps", nst);
     c.count("heartbeats", nhb);
     c.count("timeouts", m.timeouts);
@@ -450,45 +588,130 @@ static void one_case(vh::Ctx & c, uint64_t idx)
       return vh::J().f("expected_rate", cfg.rate).f("epsilon", cfg.eps).s("name", cfg.name).f("W", W)
              .s("periods", PERIOD_MODES[pmode]).s("heartbeats", HB_MODES[hbmode])
              .f("events", static_cast<uint64_t>(ev.size())).f("stamps", nst)
+             .f("arg_style", x.arg_style).f("copy_kind", x.copy_kind).f("prefix_kind", x.prefix_kind)
              .arr("first_event_times_ns", head.begin(), head.end()).str();
     };
   c.sample(std::string("periods_") + PERIOD_MODES[pmode], sample);
 
-  // ---- drive the real objects
-  RateMonitoring mon(cfg.rate);
-  CheckupEqualToRate cu_eq(cfg.name, cfg.rate, cfg.eps);
-  CheckupGreaterThanRate cu_gt(cfg.name, cfg.rate, cfg.eps);
+  // ---- construct the real objects.  The constructor arguments live on the heap, are overwritten
+  // and freed right after construction (nothing may keep a reference to them); with eps_kind 2
+  // the very same double object is passed for the rate and for the tolerance.
   const std::string key = cfg.name + "_rate";
+  std::unique_ptr<RateMonitoring> mon;
+  std::optional<CheckupEqualToRate> cu_eq_s;
+  std::optional<CheckupGreaterThanRate> cu_gt_s;
+  {
+    auto pn = std::make_unique<std::string>(cfg.name);
+    auto pr = std::make_unique<double>(cfg.rate);
+    auto pe = std::make_unique<double>(cfg.eps);
+    const double & eps_ref = (x.eps_kind == 2 && x.tie < 0) ? *pr : *pe;
+    if (x.default_ctor) {
+      mon = std::make_unique<RateMonitoring>();
+      if (x.arg_style == 1) {mon->initialize(double(cfg.rate));} else {mon->initialize(*pr);}
+    } else if (x.arg_style == 1) {
+      mon = std::make_unique<RateMonitoring>(double(cfg.rate));
+    } else {
+      mon = std::make_unique<RateMonitoring>(*pr);
+    }
+    if (x.arg_style == 1 && x.eps_kind != 2) {
+      cu_eq_s.emplace(std::string(cfg.name), double(cfg.rate), double(cfg.eps));
+      cu_gt_s.emplace(std::string(cfg.name), double(cfg.rate), double(cfg.eps));
+    } else if (x.arg_style == 2 && x.eps_kind != 2) {
+      std::string n1 = cfg.name, n2 = cfg.name;
+      double r1 = cfg.rate, e1 = cfg.eps, r2 = cfg.rate, e2 = cfg.eps;
+      cu_eq_s.emplace(std::move(n1), std::move(r1), std::move(e1));
+      cu_gt_s.emplace(std::move(n2), std::move(r2), std::move(e2));
+    } else {
+      cu_eq_s.emplace(*pn, *pr, eps_ref);
+      cu_gt_s.emplace(*pn, *pr, eps_ref);
+    }
+    *pn = "CLOBBERED is OK too low too high timeout";
+    *pr = std::numeric_limits<double>::quiet_NaN();
+    *pe = std::numeric_limits<double>::quiet_NaN();
+  }
+  CheckupEqualToRate & cu_eq = *cu_eq_s;
+  CheckupGreaterThanRate & cu_gt = *cu_gt_s;
+  const CheckupEqualToRate & ccu_eq = cu_eq;          // observations go through const access
+  const CheckupGreaterThanRate & ccu_gt = cu_gt;
+  auto rate_now = [&]() {const RateMonitoring & cm = *mon; return cm.getRate();};
+
+  // every by-reference call in one of four argument styles
+  auto call = [&](int64_t t, auto && fn) {
+      switch (x.arg_style) {
+        case 0: {const Duration d(t); return fn(d);}
+        case 1: return fn(romea::core::durationFromNanoSecond(t));
+        case 2: {Duration d(t); return fn(std::move(d));}
+        default: {
+            auto p = std::make_unique<Duration>(t);
+            auto res = fn(*p);
+            *p = Duration(0x5a5a5a5a5a5a5a5aLL);
+            p.reset();
+            return res;
+          }
+      }
+    };
+  auto do_update = [&](int64_t t) {
+      return call(t, [&](auto && d) {return mon->update(std::forward<decltype(d)>(d));});
+    };
+  auto do_timeout = [&](int64_t t) {
+      return call(t, [&](auto && d) {return mon->timeout(std::forward<decltype(d)>(d));});
+    };
+  auto do_eval_eq = [&](int64_t t) {
+      return call(t, [&](auto && d) {return cu_eq.evaluate(std::forward<decltype(d)>(d));});
+    };
+  auto do_eval_gt = [&](int64_t t) {
+      return call(t, [&](auto && d) {return cu_gt.evaluate(std::forward<decltype(d)>(d));});
+    };
+  auto do_hb_eq = [&](int64_t t) {
+      return call(t, [&](auto && d) {return cu_eq.heartBeatCallback(std::forward<decltype(d)>(d));});
+    };
+  auto do_hb_gt = [&](int64_t t) {
+      return call(t, [&](auto && d) {return cu_gt.heartBeatCallback(std::forward<decltype(d)>(d));});
+    };
+
   Model m(W);
+  const Model * pm = &m;       // model the violation records describe (the fork's while a copy is driven)
   size_t k = 0;                // event index
-  int who = 0;                 // 0 monitor, 1 equal-to, 2 greater-than
+  int who = 0;                 // 0 monitor, 1 equal-to, 2 greater-than, 3 copy of the monitor
+  int copied = 0;              // copy variant already applied to the monitor under test
   LD mrate = 0;
   Obs cur;
   double lib_rate = 0;
   bool seen_ok = false, seen_low = false, seen_high = false, seen_stale = false, seen_nodata = false;
+  bool seen_tie = false;
   uint64_t band_skips[2] = {0, 0};
 
   const std::function<vh::Params()> params = [&]() {
       const Ev & e = ev[k < ev.size() ? k : ev.size() - 1];
+      const Model & mm = *pm;
       // heartbeat: time since the last stamp; data stamp (already in the model): its period
       double since = 0.0;
-      if (e.hb) {since = m.st.empty() ? 0.0 : static_cast<double>(e.t - m.st.back());} else if (m.st.size() >= 2) {
-        since = static_cast<double>(m.st.back() - m.st[m.st.size() - 2]);
+      if (who == 3) {since = 0.0;} else if (e.hb) {
+        since = mm.st.empty() ? 0.0 : static_cast<double>(e.t - mm.st.back());
+      } else if (mm.st.size() >= 2) {
+        since = static_cast<double>(mm.st.back() - mm.st[mm.st.size() - 2]);
       }
       return vh::Params{{"expected_rate", cfg.rate}, {"epsilon", cfg.eps}, {"W", static_cast<double>(W)},
         {"object", static_cast<double>(who)}, {"event", static_cast<double>(k)},
-        {"is_heartbeat", e.hb ? 1.0 : 0.0}, {"stamps_so_far", static_cast<double>(m.st.size())},
-        {"ns_since_last_stamp", since}, {"model_rate", static_cast<double>(mrate)}};
+        {"is_heartbeat", e.hb ? 1.0 : 0.0}, {"stamps_so_far", static_cast<double>(mm.st.size())},
+        {"ns_since_last_stamp", since}, {"model_rate", static_cast<double>(mrate)},
+        {"arg_style", static_cast<double>(x.arg_style)}, {"copied", static_cast<double>(copied)},
+        {"first_stamp_ns", mm.st.empty() ? 0.0 : static_cast<double>(mm.st.front())}};
     };
   const std::function<std::string()> wit = [&]() {
-      size_t a = m.st.size() > static_cast<size_t>(W) + 2 ? m.st.size() - W - 2 : 0;
-      std::vector<int64_t> tail(m.st.begin() + a, m.st.end());
+      const Model & mm = *pm;
+      size_t a = mm.st.size() > static_cast<size_t>(W) + 2 ? mm.st.size() - W - 2 : 0;
+      std::vector<int64_t> tail(mm.st.begin() + a, mm.st.end());
       const Ev & e = ev[k < ev.size() ? k : ev.size() - 1];
+      static const char * const OBJ[] = {"RateMonitoring", "CheckupEqualToRate", "CheckupGreaterThanRate",
+        "copy of RateMonitoring"};
       return vh::J().f("expected_rate", cfg.rate).f("epsilon", cfg.eps).s("name", cfg.name).f("W", W)
-             .s("object", who == 0 ? "RateMonitoring" : who == 1 ? "CheckupEqualToRate" : "CheckupGreaterThanRate")
+             .s("object", OBJ[who])
              .f("event", static_cast<uint64_t>(k)).boolean("event_is_heartbeat", e.hb).f("event_time_ns", e.t)
              .f("heartbeat_kind", e.kind).arr("last_stamps_ns", tail.begin(), tail.end())
              .f("model_rate", mrate).f("library_rate", lib_rate)
+             .f("arg_style", x.arg_style).f("copy_kind", x.copy_kind).f("prefix_kind", x.prefix_kind)
+             .boolean("default_ctor", x.default_ctor)
              .s("status", status_name(cur.status)).s("message", cur.message).s("value", cur.value).str();
     };
 
@@ -526,6 +749,8 @@ static void one_case(vh::Ctx & c, uint64_t idx)
         if (!f.expect(n.status.c_str(), mv == allowed, "checkup_status")) {return false;}
       } else {
         ++band_skips[equal_to ? 0 : 1];
+        LD lo = static_cast<LD>(cfg.rate) - static_cast<LD>(cfg.eps), hi = static_cast<LD>(cfg.rate) + static_cast<LD>(cfg.eps);
+        if (mrate == lo || mrate == hi) {seen_tie = true;}
         if (!f.expect(n.status_band.c_str(), (mv & allowed) != 0, "checkup_status")) {return false;}
       }
       if (mv == V_OK) {seen_ok = true;} else if (mv == V_LOW) {seen_low = true;} else {seen_high = true;}
@@ -547,14 +772,20 @@ static void one_case(vh::Ctx & c, uint64_t idx)
       if (seen_high) {c.cat("status_too_high_seen");}
       if (seen_stale) {c.cat("status_stale_seen");}
       if (seen_nodata) {c.cat("status_no_data_seen");}
+      if (seen_tie) {c.cat("rate_exactly_on_threshold_seen");}
       if (band_skips[0]) {c.skips[N_EQ.skip] += band_skips[0];}
       if (band_skips[1]) {c.skips[N_GT.skip] += band_skips[1];}
     };
 
-  // before anything: both check-ups say "no data", the monitor says 0
-  who = 1; Obs prev_eq = observe(cu_eq.getReport(), key);
-  who = 2; Obs prev_gt = observe(cu_gt.getReport(), key);
-  who = 0; lib_rate = mon.getRate();
+  // before anything: both check-ups say "no data", the monitor says 0.  These first reports are
+  // bound as the signature allows and kept until the end of the case (result stability).
+  const auto & first_eq = ccu_eq.getReport();
+  const auto & first_gt = ccu_gt.getReport();
+  Obs prev_eq = observe(first_eq, key), prev_gt = observe(first_gt, key);
+  const Obs first_eq_obs = prev_eq, first_gt_obs = prev_gt;
+  std::optional<DiagnosticReport> mid_eq, mid_gt;
+  Obs mid_eq_obs, mid_gt_obs;
+  lib_rate = rate_now();
   {
     who = 1; bool ok = check_report(true, prev_eq);
     who = 2; ok = check_report(false, prev_gt) && ok;
@@ -562,21 +793,150 @@ static void one_case(vh::Ctx & c, uint64_t idx)
     if (!ok) {finish_case(); return;}
   }
 
+  // ---- value semantics of the monitor (the check-ups hold mutexes and cannot be copied)
+  std::unique_ptr<RateMonitoring> fork;
+  std::optional<Model> fork_model;
+  double fork_rate = 0;
+  const size_t copy_k = x.copy_kind ? static_cast<size_t>(x.copy_at * static_cast<double>(ev.size())) : ev.size();
+  const size_t snap_k = static_cast<size_t>(x.snapshot_at * static_cast<double>(ev.size()));
+  auto copy_step = [&]() -> bool {
+      bool ok = true;
+      who = 3;
+      if (x.copy_kind == 1 || x.copy_kind == 2) {
+        // the copy replaces the source, which is destroyed; the history simply continues on the copy
+        std::unique_ptr<RateMonitoring> cp = x.copy_kind == 1 ?
+          std::make_unique<RateMonitoring>(static_cast<const RateMonitoring &>(*mon)) :
+          std::make_unique<RateMonitoring>(std::move(*mon));
+        mon.reset();
+        mon = std::move(cp);
+        copied = x.copy_kind;
+        c.cat(x.copy_kind == 1 ? "monitor_copy_then_source_destroyed" : "monitor_move_then_source_destroyed");
+        return f.expect("copy.rate_equals_source", rate_now() == lib_rate, "copy_semantics");
+      }
+      // fork: the copy is fed its own continuation and checked against a copy of the model; afterwards
+      // the source must be untouched (and keeps being checked by the ordinary history)
+      c.cat("monitor_copy_forked");
+      fork = std::make_unique<RateMonitoring>(static_cast<const RateMonitoring &>(*mon));
+      fork_model = m;
+      Model & m2 = *fork_model;
+      pm = &m2;
+      const LD saved_mrate = mrate;
+      const double saved_lib = lib_rate;
+      ok = f.expect("copy.rate_equals_source", fork->getRate() == saved_lib, "copy_semantics") && ok;
+      int64_t tb = m2.st.empty() ? ev[k].t : m2.st.back();
+      double frate = fork->getRate();
+      int n = static_cast<int>(q.range(1, W + 3));
+      for (int i = 0; i < n && ok; ++i) {
+        if (!m2.st.empty() && q.coin(0.25)) {
+          int64_t h = tb + (q.coin() ? q.range(0, HALF_S) : q.range(HALF_S + 1, 3000000000LL));
+          bool to = m2.heartbeat(h);
+          mrate = m2.rate();
+          bool lib_to = fork->timeout(Duration(h));
+          lib_rate = fork->getRate();
+          ok = f.expect("copy.timeout_flag", lib_to == to, "copy_semantics") && ok;
+          ok = f.expect("copy.rate_after_heartbeat", to ? lib_rate == 0.0 : lib_rate == frate, "copy_semantics") && ok;
+        } else {
+          tb += clip_period(q.logu(1e3, 1e10));
+          m2.stamp(tb);
+          mrate = m2.rate();
+          double ret = fork->update(Duration(tb));
+          lib_rate = fork->getRate();
+          ok = f.expect("copy.update_returns_rate", ret == lib_rate, "copy_semantics") && ok;
+          if (mrate == 0) {
+            ok = f.expect("copy.rate_zero_until_window_full", lib_rate == 0.0, "copy_semantics") && ok;
+          } else {
+            ok = f.expect_le("copy.rate_rel", fabsl(static_cast<LD>(lib_rate) - mrate) / mrate, 1e-12L,
+                "copy_semantics") && ok;
+          }
+        }
+        frate = lib_rate;
+      }
+      fork_rate = frate;
+      pm = &m;
+      mrate = saved_mrate;
+      lib_rate = saved_lib;
+      who = 0;
+      ok = f.expect("copy.source_unaffected_by_copy", rate_now() == saved_lib, "copy_semantics") && ok;
+      return ok;
+    };
+
+  // ---- neighbouring facilities sharing hidden state, if there were any: other objects of the same
+  // classes (one of them with the same name), stream formatting state, the library's report helpers
+  std::unique_ptr<RateMonitoring> decoy_mon;
+  std::optional<CheckupEqualToRate> decoy_eq;
+  std::optional<CheckupGreaterThanRate> decoy_gt;
+  int64_t decoy_t = 0;
+  size_t sink = 0;
+  bool prev_valid = true;
+  auto interfere = [&]() -> bool {
+      if (!decoy_mon) {
+        double orate = cfg.rate < 50 ? cfg.rate * 3 + 1 : cfg.rate / 7;
+        decoy_mon = std::make_unique<RateMonitoring>(orate);
+        decoy_eq.emplace(cfg.name, orate, 0.25);
+        decoy_gt.emplace("decoy", orate, 2.0);
+      }
+      int n = static_cast<int>(q.range(1, 6));
+      for (int i = 0; i < n; ++i) {
+        decoy_t += q.coin(0.8) ? q.range(1000, 200000000LL) : q.range(HALF_S, 3000000000LL);
+        decoy_mon->update(Duration(decoy_t));
+        decoy_eq->evaluate(Duration(decoy_t));
+        decoy_gt->evaluate(Duration(decoy_t));
+        if (q.coin(0.3)) {
+          int64_t h = decoy_t + q.range(0, 1000000000LL);
+          decoy_mon->timeout(Duration(h));
+          decoy_eq->heartBeatCallback(Duration(h));
+          decoy_gt->heartBeatCallback(Duration(h));
+        }
+      }
+      std::ostringstream os;
+      os << std::fixed << std::setprecision(12) << std::showpos << 1.0 / 3 << decoy_eq->getReport()
+         << DiagnosticStatus::STALE << std::scientific << std::setprecision(2) << 12345.678;
+      std::cout.precision(static_cast<int>(q.range(1, 17)));
+      std::cout.setf(q.coin() ? std::ios::scientific : std::ios::fixed, std::ios::floatfield);
+      DiagnosticReport rep = decoy_gt->getReport();
+      romea::core::setReportInfo(rep, key, 0.125);
+      rep += decoy_eq->getReport();
+      sink += os.str().size() + romea::core::toStringInfoValue(123456.789).size() +
+        romea::core::toString(romea::core::worseStatus(rep.diagnostics)).size() +
+        romea::core::asString(Duration(decoy_t)).size() + (romea::core::allOK(rep.diagnostics) ? 1 : 0);
+      c.count("interference_steps");
+      bool ok = true;
+      who = 0;
+      ok = f.expect("interference.rate_unchanged", rate_now() == lib_rate, "interference") && ok;
+      if (drive_cu && prev_valid) {
+        who = 1; cur = observe(ccu_eq.getReport(), key);
+        ok = f.expect("interference.report_eq_unchanged", cur == prev_eq, "interference") && ok;
+        who = 2; cur = observe(ccu_gt.getReport(), key);
+        ok = f.expect("interference.report_gt_unchanged", cur == prev_gt, "interference") && ok;
+      }
+      return ok;
+    };
+
   for (k = 0; k < ev.size(); ++k) {
     const Ev & e = ev[k];
-    const Duration d = romea::core::durationFromNanoSecond(e.t);
     bool ok = true;
+    if (e.quiet) {
+      // ---------------------------------------------------------------- unobserved repetition
+      if (!e.hb) {
+        m.stamp(e.t);
+        do_update(e.t);
+        if (drive_cu) {do_eval_eq(e.t); do_eval_gt(e.t);}
+      } else {
+        m.heartbeat(e.t);
+        do_timeout(e.t);
+        if (drive_cu) {do_hb_eq(e.t); do_hb_gt(e.t);}
+      }
+      mrate = m.rate();
+      lib_rate = rate_now();
+      prev_valid = false;
+      continue;
+    }
     if (!e.hb) {
       // ------------------------------------------------------------------ data stamp
       m.stamp(e.t);
       mrate = m.rate();
-      const double ret = mon.update(d);
-      lib_rate = mon.getRate();
-      const DiagnosticStatus s1 = cu_eq.evaluate(d);
-      Obs o1 = observe(cu_eq.getReport(), key);
-      const DiagnosticStatus s2 = cu_gt.evaluate(d);
-      Obs o2 = observe(cu_gt.getReport(), key);
-
+      const double ret = do_update(e.t);
+      lib_rate = rate_now();
       who = 0;
       ok = f.expect("monitor.update_returns_rate", ret == lib_rate, "rate_mismatch") && ok;
       if (mrate == 0) {
@@ -585,26 +945,26 @@ static void one_case(vh::Ctx & c, uint64_t idx)
         ok = f.expect_le("monitor.rate_rel", fabsl(static_cast<LD>(lib_rate) - mrate) / mrate, 1e-12L,
             "rate_mismatch") && ok;
       }
-      who = 1;
-      ok = (check_report(true, o1) &&
-        f.expect(N_EQ.eval_ret.c_str(), s1 == o1.status, "checkup_return")) && ok;
-      who = 2;
-      ok = (check_report(false, o2) &&
-        f.expect(N_GT.eval_ret.c_str(), s2 == o2.status, "checkup_return")) && ok;
-      prev_eq = std::move(o1);
-      prev_gt = std::move(o2);
+      if (drive_cu) {
+        const DiagnosticStatus s1 = do_eval_eq(e.t);
+        Obs o1 = observe(ccu_eq.getReport(), key);
+        const DiagnosticStatus s2 = do_eval_gt(e.t);
+        Obs o2 = observe(ccu_gt.getReport(), key);
+        who = 1;
+        ok = (check_report(true, o1) && f.expect(N_EQ.eval_ret.c_str(), s1 == o1.status, "checkup_return")) && ok;
+        who = 2;
+        ok = (check_report(false, o2) && f.expect(N_GT.eval_ret.c_str(), s2 == o2.status, "checkup_return")) && ok;
+        prev_eq = std::move(o1);
+        prev_gt = std::move(o2);
+        prev_valid = true;
+      }
     } else {
       // ------------------------------------------------------------------ heartbeat
       const bool to = m.heartbeat(e.t);
       mrate = m.rate();
       const double before = lib_rate;
-      const bool lib_to = mon.timeout(d);
-      lib_rate = mon.getRate();
-      const bool r1 = cu_eq.heartBeatCallback(d);
-      Obs o1 = observe(cu_eq.getReport(), key);
-      const bool r2 = cu_gt.heartBeatCallback(d);
-      Obs o2 = observe(cu_gt.getReport(), key);
-
+      const bool lib_to = do_timeout(e.t);
+      lib_rate = rate_now();
       who = 0;
       ok = f.expect("monitor.timeout_flag", lib_to == to, "timeout_flag") && ok;
       if (to) {
@@ -612,23 +972,50 @@ static void one_case(vh::Ctx & c, uint64_t idx)
       } else {
         ok = f.expect("monitor.early_heartbeat_changes_nothing", lib_rate == before, "heartbeat_side_effect") && ok;
       }
-      who = 1; cur = o1;
-      ok = f.expect(N_EQ.hb_ret.c_str(), r1 == !to, "timeout_flag") && ok;
-      if (!to) {
-        ok = f.expect(N_EQ.hb_nochange.c_str(), o1 == prev_eq, "heartbeat_side_effect") && ok;
+      if (drive_cu) {
+        const bool r1 = do_hb_eq(e.t);
+        Obs o1 = observe(ccu_eq.getReport(), key);
+        const bool r2 = do_hb_gt(e.t);
+        Obs o2 = observe(ccu_gt.getReport(), key);
+        who = 1; cur = o1;
+        ok = f.expect(N_EQ.hb_ret.c_str(), r1 == !to, "timeout_flag") && ok;
+        if (!to && prev_valid) {
+          ok = f.expect(N_EQ.hb_nochange.c_str(), o1 == prev_eq, "heartbeat_side_effect") && ok;
+        }
+        ok = check_report(true, o1) && ok;
+        who = 2; cur = o2;
+        ok = f.expect(N_GT.hb_ret.c_str(), r2 == !to, "timeout_flag") && ok;
+        if (!to && prev_valid) {
+          ok = f.expect(N_GT.hb_nochange.c_str(), o2 == prev_gt, "heartbeat_side_effect") && ok;
+        }
+        ok = check_report(false, o2) && ok;
+        prev_eq = std::move(o1);
+        prev_gt = std::move(o2);
+        prev_valid = true;
       }
-      ok = check_report(true, o1) && ok;
-      who = 2; cur = o2;
-      ok = f.expect(N_GT.hb_ret.c_str(), r2 == !to, "timeout_flag") && ok;
-      if (!to) {
-        ok = f.expect(N_GT.hb_nochange.c_str(), o2 == prev_gt, "heartbeat_side_effect") && ok;
-      }
-      ok = check_report(false, o2) && ok;
-      prev_eq = std::move(o1);
-      prev_gt = std::move(o2);
     }
+    if (ok && k == snap_k && drive_cu) {
+      mid_eq = ccu_eq.getReport(); mid_eq_obs = prev_eq;
+      mid_gt = ccu_gt.getReport(); mid_gt_obs = prev_gt;
+    }
+    if (ok && k == copy_k) {ok = copy_step();}
+    if (ok && x.interference && q.coin(0.06)) {ok = interfere();}
     if (!ok) {break;}       // the objects have left the model's trajectory: stop this history
   }
+  // ---- end of the case: everything retained is still what it was
+  who = 1; cur = observe(first_eq, key);
+  bool stable = cur == first_eq_obs && (!mid_eq || observe(*mid_eq, key) == mid_eq_obs);
+  f.expect("checkup_eq.retained_reports_stable", stable, "result_stability");
+  who = 2; cur = observe(first_gt, key);
+  stable = cur == first_gt_obs && (!mid_gt || observe(*mid_gt, key) == mid_gt_obs);
+  f.expect("checkup_gt.retained_reports_stable", stable, "result_stability");
+  if (fork) {
+    who = 3; pm = &*fork_model;
+    const RateMonitoring & cf = *fork;
+    f.expect("copy.unaffected_by_later_use_of_source", cf.getRate() == fork_rate, "copy_semantics");
+    pm = &m;
+  }
+  if (sink == 0x7fffffff) {c.count("never");}
   c.count("nonzero_rate_histories", mrate > 0 || m.recoveries > 0 ? 1 : 0);
   finish_case();
 }
